@@ -1,0 +1,285 @@
+//! Verification hook, only compiled with the cargo feature `verif_hooks`.
+//!
+//! When the environment variable `ENUM_TOOLS_VERIF_LOG` names a directory, every
+//! expansion appends JSON lines to `<dir>/<pid>.jsonl`:
+//! `begin` (input text), `resolved` (parsed and resolved state) and `end` (output text).
+//! An expansion which aborts leaves no `end` record. Without the variable it is silent.
+
+use crate::feature::as_str_fn::AsStrMode;
+use crate::feature::from_str_fn::FromStrFnMode;
+use crate::feature::from_str_trait::FromStrMode;
+use crate::feature::iter::IterMode;
+use crate::generator::features::Features;
+use crate::generator::{Derive, Mode};
+use quote::ToTokens;
+use std::fmt::Write as _;
+use std::io::Write as _;
+use std::sync::atomic::{AtomicU64, Ordering};
+use syn::Visibility;
+
+static SEQ: AtomicU64 = AtomicU64::new(0);
+
+fn dir() -> Option<String> {
+    std::env::var("ENUM_TOOLS_VERIF_LOG")
+        .ok()
+        .filter(|s| !s.is_empty())
+}
+
+fn esc(s: &str, out: &mut String) {
+    out.push('"');
+    for c in s.chars() {
+        match c {
+            '"' => out.push_str("\\\""),
+            '\\' => out.push_str("\\\\"),
+            '\n' => out.push_str("\\n"),
+            '\r' => out.push_str("\\r"),
+            '\t' => out.push_str("\\t"),
+            c if (c as u32) < 0x20 => {
+                let _ = write!(out, "\\u{:04x}", c as u32);
+            }
+            c => out.push(c),
+        }
+    }
+    out.push('"');
+}
+
+fn head(kind: &str) -> String {
+    let mut s = String::new();
+    let _ = write!(
+        s,
+        "{{\"k\":\"{kind}\",\"pid\":{},\"seq\":{},\"crate\":",
+        std::process::id(),
+        SEQ.load(Ordering::SeqCst)
+    );
+    esc(
+        &std::env::var("CARGO_CRATE_NAME").unwrap_or_default(),
+        &mut s,
+    );
+    s
+}
+
+fn emit(dir: &str, mut line: String) {
+    line.push('\n');
+    let path = format!("{dir}/{}.jsonl", std::process::id());
+    if let Ok(mut f) = std::fs::OpenOptions::new()
+        .create(true)
+        .append(true)
+        .open(path)
+    {
+        let _ = f.write_all(line.as_bytes());
+    }
+}
+
+fn vis(v: &Option<Visibility>) -> String {
+    match v {
+        None => "enum".to_string(),
+        Some(Visibility::Inherited) => "".to_string(),
+        Some(v) => v.to_token_stream().to_string(),
+    }
+}
+
+pub(crate) fn begin(input: &str) {
+    SEQ.fetch_add(1, Ordering::SeqCst);
+    if let Some(dir) = dir() {
+        let mut s = head("begin");
+        s.push_str(",\"input\":");
+        esc(input, &mut s);
+        s.push('}');
+        emit(&dir, s);
+    }
+}
+
+pub(crate) fn resolved(derive: &Derive, features: &Features) {
+    let dir = match dir() {
+        Some(dir) => dir,
+        None => return,
+    };
+    let mut s = head("resolved");
+    s.push_str(",\"enum\":");
+    esc(&derive.ident_enum.to_string(), &mut s);
+    s.push_str(",\"vis_enum\":");
+    esc(&derive.vis_enum.to_token_stream().to_string(), &mut s);
+    s.push_str(",\"repr\":");
+    esc(&derive.repr.to_string(), &mut s);
+    s.push_str(",\"repr_unsigned\":");
+    esc(&derive.repr_unsigned.to_string(), &mut s);
+    let _ = write!(
+        s,
+        ",\"repr_size_guessed\":{},\"min_key\":{},\"max_key\":{},\"num_values\":{},\"values\":[",
+        derive.repr_size_guessed, derive.min_key, derive.max_key, derive.num_values
+    );
+    for (i, (k, (ident, name))) in derive.values.iter().enumerate() {
+        if i > 0 {
+            s.push(',');
+        }
+        let _ = write!(s, "[{k},");
+        esc(&ident.to_string(), &mut s);
+        s.push(',');
+        esc(name, &mut s);
+        s.push(']');
+    }
+    s.push_str("],\"ranges\":");
+    match &derive.mode {
+        Mode::Gapless => s.push_str("null"),
+        Mode::WithHoles { value_ranges } => {
+            s.push('[');
+            for (i, (b, e)) in value_ranges.iter().enumerate() {
+                if i > 0 {
+                    s.push(',');
+                }
+                let _ = write!(s, "[{b},{e}]");
+            }
+            s.push(']');
+        }
+    }
+    s.push_str(",\"features\":{");
+    let mut first = true;
+    let mut feat = |key: &str, enabled: bool, mode: &str, name: &str, v: String| {
+        if !first {
+            s.push(',');
+        }
+        first = false;
+        let _ = write!(s, "\"{key}\":{{\"enabled\":{enabled},\"mode\":\"{mode}\",\"name\":");
+        esc(name, &mut s);
+        s.push_str(",\"vis\":");
+        esc(&v, &mut s);
+        s.push('}');
+    };
+    let f = features;
+    feat(
+        "as_str",
+        f.as_str_fn.enabled,
+        match f.as_str_fn.mode {
+            AsStrMode::Auto => "auto",
+            AsStrMode::Match => "match",
+            AsStrMode::Table => "table",
+        },
+        &f.as_str_fn.name,
+        vis(&f.as_str_fn.vis),
+    );
+    feat("Debug", f.debug_trait.enabled, "", "", String::new());
+    feat("Display", f.display_trait.enabled, "", "", String::new());
+    feat(
+        "from_str",
+        f.from_str_fn.enabled,
+        match f.from_str_fn.mode {
+            FromStrFnMode::Auto => "auto",
+            FromStrFnMode::Match => "match",
+            FromStrFnMode::Table => "table",
+        },
+        &f.from_str_fn.name,
+        vis(&f.from_str_fn.vis),
+    );
+    feat(
+        "FromStr",
+        f.from_str_trait.enabled,
+        match f.from_str_trait.mode {
+            FromStrMode::Auto => "auto",
+            FromStrMode::Match => "match",
+            FromStrMode::Table => "table",
+        },
+        "",
+        String::new(),
+    );
+    feat(
+        "into",
+        f.into_fn.enabled,
+        "",
+        &f.into_fn.name,
+        vis(&f.into_fn.vis),
+    );
+    feat("IntoStr", f.into_str_trait.enabled, "", "", String::new());
+    feat("Into", f.into_trait.enabled, "", "", String::new());
+    feat(
+        "iter",
+        f.iter.enabled,
+        match f.iter.mode {
+            IterMode::Auto => "auto",
+            IterMode::Range => "range",
+            IterMode::NextAndBack => "next_and_back",
+            IterMode::Table => "table",
+            IterMode::TableInline => "table_inline",
+        },
+        &f.iter.name,
+        vis(&f.iter.vis),
+    );
+    feat(
+        "MAX",
+        f.max_const.enabled,
+        "",
+        &f.max_const.name,
+        vis(&f.max_const.vis),
+    );
+    feat(
+        "MIN",
+        f.min_const.enabled,
+        "",
+        &f.min_const.name,
+        vis(&f.min_const.vis),
+    );
+    feat(
+        "names",
+        f.names.enabled,
+        "",
+        &f.names.name,
+        vis(&f.names.vis),
+    );
+    feat(
+        "next_back",
+        f.next_back_fn.enabled,
+        "",
+        &f.next_back_fn.name,
+        vis(&f.next_back_fn.vis),
+    );
+    feat(
+        "next",
+        f.next_fn.enabled,
+        "",
+        &f.next_fn.name,
+        vis(&f.next_fn.vis),
+    );
+    feat(
+        "range",
+        f.range_fn.enabled,
+        "",
+        &f.range_fn.name,
+        vis(&f.range_fn.vis),
+    );
+    feat("table_enum", f.table_enum.enabled, "", "", String::new());
+    feat("table_name", f.table_name.enabled, "", "", String::new());
+    feat(
+        "table_range",
+        f.table_range.enabled,
+        if f.table_range.with_offset {
+            "with_offset"
+        } else {
+            ""
+        },
+        "",
+        String::new(),
+    );
+    feat(
+        "try_from",
+        f.try_from_fn.enabled,
+        "",
+        &f.try_from_fn.name,
+        vis(&f.try_from_fn.vis),
+    );
+    feat("TryFrom", f.try_from_trait.enabled, "", "", String::new());
+    s.push_str("},\"iter_struct\":");
+    esc(f.iter.struct_name.as_deref().unwrap_or(""), &mut s);
+    s.push_str(",\"names_struct\":");
+    esc(f.names.struct_name.as_deref().unwrap_or(""), &mut s);
+    s.push('}');
+    emit(&dir, s);
+}
+
+pub(crate) fn end(output: &str) {
+    if let Some(dir) = dir() {
+        let mut s = head("end");
+        s.push_str(",\"output\":");
+        esc(output, &mut s);
+        s.push('}');
+        emit(&dir, s);
+    }
+}
